@@ -27,10 +27,6 @@ quantifiers below `or_` (F-C01-8 shows that is wrong in general), nested quantif
 -/
 namespace KrroodVerif.Eql
 
-/-- no selected expression mentions a quantified variable -/
-def selNoQuant (sel : List Term) (e : Expr) : Bool :=
-  e.qvars.all fun v => !(sel.flatMap Term.vars).contains v
-
 /-- **C01_quant_sound_complete_partial.** For every query whose built condition is in the quantifier fragment
 `Expr.Ql` (see `Lemmas/EqlQuant.lean`), the returned rows are exactly the projections of the assignments of the FREE
 variables that satisfy the condition read as a first-order formula (`∃ y ∈ dom y, φ` / `∀ y ∈ dom y, φ`): set equality.
@@ -70,7 +66,7 @@ theorem ql_chain (last : SExpr) : ∀ (ls : List SExpr) (A : List VarId) (B : Li
   | cons l ls ih =>
     intro A B hls h
     obtain ⟨hFc, hv⟩ := build_F1 (hls l List.mem_cons_self)
-    simp only [chainS, build, Expr.Ql, Bool.and_eq_true]
+    simp only [chainS, build, Expr.Ql, Expr.FcQ_eq, Bool.and_eq_true]
     refine ⟨hFc, ih _ _ (fun l' hl' => hls l' (List.mem_cons_of_mem _ hl')) ?_⟩
     rw [hv]
     simpa [chainVars, chainKeys, List.append_assoc] using h
@@ -89,13 +85,13 @@ def forAllSide (ls : List SExpr) (y : VarId) (φ : Expr) : Bool :=
 theorem ql_exists {ls : List SExpr} {y : VarId} {φ : Expr} (hF : φ.Fc = true) (h : existsSide ls y φ = true) :
     (Expr.exists_ y φ).Ql ([] ++ chainVars ls) ([] ++ chainKeys ls) = true := by
   simp only [existsSide, Bool.and_eq_true] at h
-  simp only [Expr.Ql, List.nil_append, Bool.and_eq_true]
+  simp only [Expr.Ql, Expr.FcQ_eq, List.nil_append, Bool.and_eq_true]
   exact ⟨⟨⟨⟨hF, h.1.1.1⟩, h.1.1.2⟩, h.1.2⟩, h.2⟩
 
 theorem ql_forAll {ls : List SExpr} {y : VarId} {φ : Expr} (hF : φ.Fc = true) (h : forAllSide ls y φ = true) :
     (Expr.forAll y φ).Ql ([] ++ chainVars ls) ([] ++ chainKeys ls) = true := by
   simp only [forAllSide, Bool.and_eq_true] at h
-  simp only [Expr.Ql, List.nil_append, Bool.and_eq_true]
+  simp only [Expr.Ql, Expr.FcQ_eq, List.nil_append, Bool.and_eq_true]
   exact ⟨⟨hF, h.1⟩, h.2⟩
 
 /- Intended statement (full strength): the same set equality for EVERY query whose condition contains `exists`
@@ -326,6 +322,42 @@ rejected by `Expr.Ql`: nothing is proved about it (the row that `for_all` passes
 one `exists` passes on also binds `y`); the correspondence check still compares such queries with the specification. -/
 theorem C01_quant_need_last :
     (build (.and (.exists_ 3 (.cmp .gt (cexAttrA 3) (.lit 101 (.int 1)))) qnvL)).Ql [] [] = false := by
+  decide
+
+/-- **C01_quantProved_sound_complete.** The decidable predicate `quantProved w q` (`Model/EqlQuantFrag.lean`; the driver
+evaluates it on every case and then does not offer F-C01-5 / F-C01-7 / F-C01-11 as an excuse: `triggersQ`) implies every
+hypothesis of `C01_quant_sound_complete_partial`: on such a query the evaluation returns exactly the specified rows. -/
+theorem C01_quantProved_sound_complete (w : World) (q : SQuery) (h : quantProved w q = true)
+    {rows rows' : List (List Val)}
+    (h1 : evalQuery w q.toQuery = .ok rows) (h2 : solutions w q = .ok rows') :
+    ∀ r, r ∈ rows ↔ r ∈ rows' := by
+  unfold quantProved at h
+  cases hc : q.cond with
+  | none => rw [hc] at h; cases h
+  | some c =>
+    rw [hc] at h
+    simp only [Bool.and_eq_true, Bool.not_eq_true'] at h
+    obtain ⟨⟨⟨⟨⟨⟨hQ, hsel⟩, hms⟩, hsq⟩, hnd⟩, hne⟩, hlit⟩ := h
+    refine C01_quant_sound_complete_partial w q c hc hQ ?_ hms hsq ?_ ?_ ?_ h1 h2
+    · simpa [selF1] using hsel
+    · apply domsNodup_of_B
+      simp only [domsNodupB, List.all_eq_true, decide_eq_true_eq]
+      intro d hd
+      exact (nodupVal_iff _).mp (List.all_eq_true.mp hnd d hd)
+    · intro v hv hemp
+      have := List.all_eq_true.mp hne v hv
+      simp [hemp] at this
+    · exact (nodupNat_iff _).mp hlit
+
+/-- non-vacuity (test): the queries of the tests above satisfy `quantProved`; the recorded witnesses of the quantifier
+findings do not -/
+example : quantProved qnvW qnvE = true ∧ quantProved qnvW qnvA = true ∧ quantProved qnvW qnvAc = true ∧
+    quantProved qnvW qnvNE = true ∧ quantProved qnvW qnvNA = true ∧ quantProved qnvW qnvE0 = true ∧
+    quantProved cex5W cex5Q = false ∧ quantProved cex7W cex7Q = false ∧ quantProved cex7W cex8Q = false ∧
+    quantProved cex11W cex11Q = false ∧
+    ("F-C01-5" ∈ triggers qnvW qnvE ∧ "F-C01-5" ∉ triggersQ qnvW qnvE) ∧
+    ("F-C01-11" ∈ triggers qnvW qnvAc ∧ "F-C01-11" ∉ triggersQ qnvW qnvAc) ∧
+    triggersQ cex5W cex5Q = triggers cex5W cex5Q := by
   decide
 
 end KrroodVerif.Eql
